@@ -3,6 +3,6 @@ CONSTANTS
   Vary = {"fn", "w"}
   Fns = {"Fprint", "Fprintf", "Fprintln"}
   Shs = {"-"}
-  ScopeAware = FALSE
+  ScopeAware = TRUE
 INVARIANTS TypeOK Confluent ImportSound Export
 PROPERTIES Stable Terminates
